@@ -80,11 +80,8 @@ Let tol := is_bic cf.
 Definition model_strict : list (res bool) := map (is_strictness_fulfilled (cf_strict cf)) all.
 Definition spec_strict : list (res bool) := map (spec_strictness (cf_strict cf)) all.
 
-(* A correspondence tag is raised when the implementation agrees NEITHER with the faithful model NOR with the
-   documented reference: on inputs where the two differ (guard false = a known defect) an implementation that
-   has been repaired is accepted without alarm. *)
 Definition check_strict : list nat :=
-  tag (list_eqb_res model_strict (k_strict k) || list_eqb_res spec_strict (k_strict k)) 2.
+  tag (list_eqb_res model_strict (k_strict k)) 2.
 
 Definition model_rank : res (list row) :=
   rank_models logf isf (is_strictness_fulfilled (cf_strict cf)) cf (k_base k) (k_models k).
@@ -93,8 +90,6 @@ Definition model_rank : res (list row) :=
 Definition ref_is_nan (rows : list row) : bool := forallb (fun r => match w_delta r with None => true | _ => false end) rows.
 Definition obs_key (rows : list row) : row -> option Q := if ref_is_nan rows then w_value else w_delta.
 
-Definition spec_rank : res (list row) :=
-  rank_models logf isf (spec_strictness (cf_strict cf)) cf (k_base k) (k_models k).
 Definition agrees_with (okf : cand -> res bool) (m : res (list row)) : bool :=
   match m, k_rank k with
   | Err a, Err b => err_eqb a b
@@ -104,8 +99,7 @@ Definition agrees_with (okf : cand -> res bool) (m : res (list row)) : bool :=
   | _, _ => false
   end.
 Definition check_rank : list nat :=
-  tag (agrees_with (is_strictness_fulfilled (cf_strict cf)) model_rank
-       || agrees_with (spec_strictness (cf_strict cf)) spec_rank) 1.
+  tag (agrees_with (is_strictness_fulfilled (cf_strict cf)) model_rank) 1.
 
 (* ---- oracle: the property statement on the implementation's output *)
 Definition ranked (r : row) : bool := match w_rank r with Some _ => true | None => false end.
@@ -157,11 +151,8 @@ Definition check_oracle_strict : list nat :=
 Definition check_xstrict : list nat :=
   flat_map (fun p =>
     let '(e, obs) := p in
-    tag (list_eqb_res (map (is_strictness_fulfilled (StExpr e)) all) obs
-         || list_eqb_res (map (spec_strictness (StExpr e)) all) obs) 2 ++
-    tag (forallb (fun p => if g_rse_not_rebound e && g_grad_nan_rows e (fst p) && g_near_round e (fst p)
-                           then resb_eqb (spec_strictness (StExpr e) (fst p)) (snd p) else true)
-                 (combine all obs)) 19 ++
+    tag (list_eqb_res (map (is_strictness_fulfilled (StExpr e)) all) obs) 2 ++
+    tag (list_eqb_res (map (spec_strictness (StExpr e)) all) obs) 19 ++
     tag (well_typed e) 1002) (k_xstrict k).
 
 (* 16/5: final model of create_results *)
@@ -174,16 +165,12 @@ Definition check_tool : list nat :=
   | Some (Err e) =>
       (* summarize_tool raises ValueError when no candidate has a rank value (non-lrt), or rank_models raised *)
       tag (match model_tool logf isf (is_strictness_fulfilled (cf_strict cf)) cf (k_base k) (k_models k) with
-           | Err e' => err_eqb e e' | Ok _ => false end
-           || match model_tool logf isf (spec_strictness (cf_strict cf)) cf (k_base k) (k_models k) with
-              | Err e' => err_eqb e e' | Ok _ => false end) 5
+           | Err e' => err_eqb e e' | Ok _ => false end) 5
   | Some (Ok (trs, best)) =>
       let rows := map t_row trs in
       (* the model does not refuse either *)
       tag (match model_tool logf isf (is_strictness_fulfilled (cf_strict cf)) cf (k_base k) (k_models k) with
-           | Ok _ => true | Err _ => false end
-           || match model_tool logf isf (spec_strictness (cf_strict cf)) cf (k_base k) (k_models k) with
-              | Ok _ => true | Err _ => false end) 5 ++
+           | Ok _ => true | Err _ => false end) 5 ++
       (* same table as rank_models returned *)
       tag (match k_rank k with Ok o => list_eqb_rows tol rows o | Err _ => false end) 6 ++
       (* n_params = number of non-fixed parameters, d_params relative to the base *)
@@ -239,12 +226,7 @@ Definition check_lrt : list nat :=
          | None, None => true
          | _, _ => false end) 4) (k_bom k).
 
-Definition guard_tags : list nat :=
-  match cf_strict cf with
-  | StExpr e => tag (g_rse_not_rebound e) 201 ++ tag (forallb (g_grad_nan_rows e) all) 202
-                ++ tag (forallb (g_near_round e) all) 204
-  | _ => []
-  end ++ tag (names_distinct all) 203.
+Definition guard_tags : list nat := tag (names_distinct all) 203.
 
 Definition verdict_of : list nat :=
   check_strict ++ check_xstrict ++ check_rank ++ check_tool ++ check_ic ++ check_lrt
